@@ -225,7 +225,7 @@ def cli_agreement(tier):
     H = "# SPDX-FileCopyrightText: Jane\n# SPDX-License-Identifier: MIT\n"
     files = {"src/ok.py": H, "src/no_licence.py": "# SPDX-FileCopyrightText: Jane\n", "src/deep/no_both.py": "x = 1\n",
              "missing.py": "# SPDX-FileCopyrightText: Jane\n# SPDX-License-Identifier: 0BSD\n", "with space.py": "y = 2\n",
-             "LICENSES/MIT.txt": "m"}
+             "LICENSES/MIT.txt": "m", "subprojects/vendored/foo.c": "int x;\n", ".reuse/notes.txt": "n\n"}
     top = tempfile.mkdtemp(prefix="c13_")
     root = os.path.join(top, "proj")
     failures, cases = [], 0
@@ -238,7 +238,9 @@ def cli_agreement(tier):
                 fp.write(data)
         os.makedirs(os.path.join(top, "sibling"))
         os.symlink(root, os.path.join(top, "link"))
-        targets = [f for f in files if not f.startswith("LICENSES/")]
+        # files inside directories that lint excludes as a whole (LICENSES/, Meson subprojects, .reuse/) are requested too:
+        # lint-file must stay silent about them, exactly as lint is
+        targets = list(files)
         spellings = [("absolute root", top, root), ("relative root with ..", os.path.join(top, "sibling"), "../proj"),
                      ("root through a symlink", top, os.path.join(top, "link")), ("root '.'", root, "."),
                      ("root '..' from a subdirectory", os.path.join(root, "src"), "..")]
@@ -255,7 +257,7 @@ def cli_agreement(tier):
             os.chdir(cwd)
             r = CliRunner().invoke(main, ["--root", spelled, "--no-multiprocessing", "lint", "--lines"])
             lint = per_file(r.stdout, spelled, cwd)
-            for k in (1, 2, len(targets)):
+            for k in (1, 2, 5, len(targets)):
                 import itertools
                 for sub in itertools.combinations(targets, k):
                     cases += 1
@@ -273,8 +275,8 @@ def cli_agreement(tier):
     finally:
         os.chdir(cwd0)
         shutil.rmtree(top, ignore_errors=True)
-    return Bounded("cli-agreement", "one tree (5 source files: compliant, no licence, nothing, missing licence text, name with a space) x 5 root "
-                   "spellings (absolute, relative with '..', through a symlink, '.', '..' from a subdirectory) x every 1-, 2- and 5-file "
+    return Bounded("cli-agreement", "one tree (5 source files: compliant, no licence, nothing, missing licence text, name with a space; 3 files inside wholly excluded directories) x 5 root "
+                   "spellings (absolute, relative with '..', through a symlink, '.', '..' from a subdirectory) x every 1-, 2-, 5- and 8-file "
                    "subset: per-file lines and exit status of `lint-file` against `lint`", cases, failures[:8], "real CLI through click's CliRunner")
 
 
